@@ -105,9 +105,33 @@ def run(prog: Program, rep: Report, tier: str):
     rule_covariance(prog, rep)
     rule_nan(prog, rep, "C05.nan")
     rule_mix(prog, rep)
+    rule_param_bijections(prog, rep)
     if tier == "thorough":
         from ..audit import audit_generic
         audit_generic(prog, rep, "C05")
+
+
+PARAM_BIJECTIONS = {
+    # the bijections through which the named families store / recover their parameters
+    "flowjax.bijections.softplus.SoftPlus", "flowjax.bijections.exp.Exp", "flowjax.bijections.affine.Affine",
+    "flowjax.bijections.affine.Loc", "flowjax.bijections.affine.Scale", "flowjax.bijections.affine.TriangularAffine",
+    "flowjax.bijections.chain.Chain", "flowjax.bijections.utils.Invert",
+}
+
+
+def rule_param_bijections(prog, rep):
+    """Scale, rate, df, maxval-minval and the Cholesky diagonal are stored through SoftPlus.inverse and recovered
+    through SoftPlus.transform on every access; a spelling that overflows (log1p(exp x)) makes the accessors and
+    densities of large-parameter members inf / -inf."""
+    from .lints import rule_stable_bijections
+    from ..refs import FORMULAS
+    rule_stable_bijections(prog, rep, "C05.stable", only=PARAM_BIJECTIONS, minimum=20)
+    q = "flowjax.bijections.softplus.SoftPlus"
+    c = prog.cls(q)
+    got = Interp(prog).eval_method(c, "transform", [XS, CONDS])
+    want = eval_ref_method(prog, c, FORMULAS[q][1], [XS, CONDS])
+    compare(rep, "C05.stable", method_site(prog, c, "transform"), "SoftPlus.transform==jax.nn.softplus", got, want,
+            "positive-parameter map")
 
 
 def rule_family(prog, rep):
@@ -277,7 +301,9 @@ def rule_nan(prog, rep, R):
               and v[0] == "call" and v[1][0] == "call")
     elif t[0] == "call" and t[1] == ("ext", "jax.numpy.nan_to_num"):
         kw = dict(t[3])
-        ok = equal(kw.get("nan", C(0)), mk_neg(("ext", "jax.numpy.inf"))) and "posinf" in kw and "neginf" in kw
+        ok = equal(kw.get("nan", C(0)), mk_neg(("ext", "jax.numpy.inf"))) and \
+            equal(kw.get("posinf", C(None)), ("ext", "jax.numpy.inf")) and \
+            equal(kw.get("neginf", C(None)), mk_neg(("ext", "jax.numpy.inf")))
     rep.check(ok, R, site, "AbstractDistribution.log_prob:nan->-inf",
               "NaN log-probabilities are mapped to -inf after vectorisation",
               f"log_prob returns {detail}; expected where(isnan(v), -inf, v) of the vectorised _log_prob")
